@@ -1,5 +1,5 @@
 (** C13 — lane-16 results instantiated with tables regenerated from the source. *)
-From Coq Require Import ZArith List Lia.
+From Coq Require Import ZArith List Lia Bool.
 From Webp Require Import Base.Res Arch.ArchLane16 Arch.ArchLane16Proofs.
 From WebpGen Require Tables.
 Import ListNotations.
@@ -54,3 +54,28 @@ Proof.
   - unfold in_range, kIdctBox, idct_block_2300. cbn [repeat]. intros H. inversion H as [|? ? H1 _]. lia.
   - destruct lane16_idct_differs_witness as [-> ->]. discriminate.
 Qed.
+
+(** ** Encoder quantiser tables vs the slack of [ArchEncRange.encSlack]
+    For every quantiser index: Y1 DC step <= 157 <= slack_0; for every AC
+    position i, sharpen_i(q) + q = ((kFreqSharpening_i * q) >> 11) + q <= slack_i
+    for every AC step q of the table; Y2 steps are within [8, 314] (DC, doubled
+    kDcTable, floor 8) and [8, 440] (kAcTable2); the Y2 biases are BIAS(96) and
+    BIAS(108). *)
+From Webp Require Import Arch.ArchEncRange.
+Open Scope bool_scope.
+Definition enc_tables_ok : bool :=
+  forallb (fun q => (4 <=? q) && (q <=? 157)) WebpGen.Tables.lossy_KDcTable &&
+  forallb (fun q => (8 <=? Z.max 8 (2 * q)) && (Z.max 8 (2 * q) <=? 314)) WebpGen.Tables.lossy_KDcTable &&
+  forallb (fun q => (8 <=? q) && (q <=? 440)) WebpGen.Tables.lossy_KAcTable2 &&
+  forallb (fun q =>
+     forallb (fun ks => (fst ks * q) / 2048 + q <=? snd ks)
+             (combine (tl WebpGen.Tables.lossy_kFreqSharpening) (tl (listM encSlack))))
+          WebpGen.Tables.lossy_KAcTable &&
+  (157 <=? hd 0 (listM encSlack)) &&
+  (nth 1 (nth 0 WebpGen.Tables.lossy_kBiasMatrices []) 0 * 512 <? 131072) &&
+  (nth 0 (nth 1 WebpGen.Tables.lossy_kBiasMatrices []) 0 * 512 =? 49152) &&
+  (nth 1 (nth 1 WebpGen.Tables.lossy_kBiasMatrices []) 0 * 512 =? 55296) &&
+  (Z.of_nat (length WebpGen.Tables.lossy_kFreqSharpening) =? 16).
+
+Lemma enc_tables_within_slack : enc_tables_ok = true.
+Proof. vm_compute. reflexivity. Qed.
